@@ -38,6 +38,14 @@ class Prop(PropBase):
                         n2 = f'c14_host_RSBP{"v4" if v4 else "v3"}_{r}'
                         self.cfgs[n2] = (t, cfg2)
                         scn_all.append(scen.mixed_scenario(rng, self.L, t, n2, cfg2, malformed_p=0.0, host=True, npk=4, bpv4=v4, start_az=35900))
+        # the 16-beam types under the host clock with a DIFOP packet announcing dual return after the first MSOP packet, whatever the seed:
+        # the receive time minus one packet duration is the packet time before and after the change of the return mode
+        for t in ('RS16', 'RSHELIOS_16P'):
+            for k, at in enumerate((1, 2)):
+                cfg = scen.rand_cfg(rng, dense=0, wait=0, lclock=0, pktcb=1, tsfirst=0)
+                name = f'c14_host_dual_{t}_{k}'
+                self.cfgs[name] = (t, cfg)
+                scn_all.append(scen.mixed_scenario(rng, self.L, t, name, cfg, malformed_p=0.0, gap_p=0.0, host=True, npk=5, start_az=35900, dual=True, difop_at=at, cali_kind='valid'))
         # process time zones WITH daylight saving, while it is in force and while it is not (calendar-header types under the host clock:
         # the header is written with localtime() and read back with mktime()), and the LiDAR clock in such zones
         import tzrules
